@@ -30,7 +30,12 @@ func (c *brotliDecompressor) Read(bytes []byte) (int, error) {
 	return c.reader.Read(bytes)
 }
 func (c *brotliDecompressor) Reset(rdr io.Reader) error {
-	return c.reader.Reset(rdr)
+	// brotli's Reader.Reset keeps input that it has buffered but not consumed
+	// (such as bytes that follow the end of the previous stream) unless the
+	// decoder had failed, and would decode those leftovers ahead of the new
+	// source. So start over with a fresh Reader instead.
+	c.reader = brotli.NewReader(rdr)
+	return nil
 }
 func (c *brotliDecompressor) Close() error {
 	// brotli's Reader does not expose a Close function
